@@ -19,6 +19,31 @@ static Plan generate(uint64_t seed, uint64_t run, const std::map<std::string, st
   p.seed = seed;
   p.run = run;
   Rng r(mix_seed(seed, run * 2 + (p.property == "C09" ? 0 : 1)));
+  if (p.property == "C13") {
+    auto h = gen_history(r, r.chance(1, 3) ? 1 : 4);
+    if (r.chance(1, 6)) {  // a value of several thousand bytes (block-wise / buffered processing inside a setter)
+      static const char* const unit[] = {"a", "ab c", "\xc3\xa9", "x%20", "'\"<"};
+      static const uint32_t targets[] = {4097, 5000, 8192, 12288, 20000};
+      static const int setters[] = {S_SEARCH, S_HASH, S_PATHNAME, S_HREF, S_USERNAME, S_HOST};
+      std::string v, u = pick(r, unit);
+      size_t target = pick(r, targets);
+      while (v.size() < target) v += u;
+      int s = pick(r, setters);
+      if (s == S_HREF) v = "https://example.com/" + v;
+      h.push_back(make_set(s, v));
+    }
+    if (r.chance(1, 3)) {
+      std::string in;
+      OptStr base;
+      gen_parse_args(r, in, base);
+      h.push_back(make_canparse(in, base));
+    }
+    for (auto& op : h) {
+      if (op.kind == OP_ORIGIN || op.kind == OP_CLEAR) continue;
+      p.ops.emplace_back(0, op);
+    }
+    return p;
+  }
   if (p.property == "C09") {
     auto h = gen_history(r, r.chance(1, 3) ? 0 : (r.chance(1, 2) ? 2 : 6));
     for (auto& op : h) {
@@ -307,7 +332,142 @@ static Result execute_c08(const Plan& p, Stats& st) {
   return res;
 }
 
-static Result execute(const Plan& p, Stats& st) { return p.property == "C08" ? execute_c08(p, st) : execute_c09(p, st); }
+// ---- C13, limit clause: the position of a concurrent limit store, enumerated -----------------------
+// "While another thread changes the global length limit, each call behaves as under one of the values that were
+// set."  The limit is one relaxed atomic and ada shares nothing else between a setter thread and a caller, so the
+// execution "another thread stores v2 between the caller's k-th and (k+1)-th read of the limit" is exactly the
+// sequential execution in which the store happens inside the hook that precedes read k+1.  That makes the space
+// small enough to ENUMERATE per operation: every pair (v1, v2) of a boundary set of limit values x every read gap.
+// (Engine E1 mode b samples the same executions with real threads and also covers data races; this enumeration
+// covers the logic side systematically.)
+static int g_reads = 0, g_switch_at = -1;
+static uint32_t g_switch_to = 0;
+static bool g_in_limit_hook = false;
+static void limit_hook(int site) {
+  if (site != LIM_GET || g_in_limit_hook) return;
+  g_reads++;
+  if (g_reads == g_switch_at) {
+    g_in_limit_hook = true;
+    ada::set_max_input_length(g_switch_to);  // lands right before this read
+    g_in_limit_hook = false;
+  }
+}
+
+template <class U>
+static std::string run_step_under(const Op& op, const Hist<U>& pre, uint32_t v1, int switch_at, uint32_t v2, int* reads) {
+  Hist<U> h = pre;
+  ada::set_max_input_length(v1);
+  g_reads = 0;
+  g_switch_at = switch_at;
+  g_switch_to = v2;
+  std::string t = exec_op(op, h).text;
+  if (reads) *reads = g_reads;
+  g_switch_at = -1;
+  return t;
+}
+// parse with base = two library calls: base under va, input under vb
+template <class U>
+static std::string parse_mixed(const Op& op, uint32_t va, uint32_t vb) {
+  ada::set_max_input_length(va);
+  auto b = ada::parse<U>(*op.args[1]);
+  if (!b) return "F|base";
+  ada::set_max_input_length(vb);
+  auto u = ada::parse<U>(op.args[0] ? std::string_view(*op.args[0]) : std::string_view(), &*b);
+  return u ? "K|" + snapshot(*u) : std::string("F|-");
+}
+
+template <class U>
+static bool enumerate_limit_stores(const std::vector<Op>& ops, Result& res, Stats& st, const char* tname, std::string& log, uint64_t salt) {
+  Hist<U> real;
+  for (size_t i = 0; i < ops.size(); i++) {
+    const Op& op = ops[i];
+    Hist<U> pre = real;
+    ada::set_max_input_length(kUnlimited);
+    StepObs R = exec_op(op, real);  // the history itself advances under no limit
+    if (op.kind != OP_PARSE && op.kind != OP_SET && op.kind != OP_CANPARSE) continue;
+    if (op.kind == OP_SET && !pre.cur) continue;
+    // boundary set of limit values
+    std::set<uint32_t> V = {0, kUnlimited};
+    auto around = [&](size_t x) {
+      for (long d = -1; d <= 1; d++)
+        if (long(x) + d >= 0) V.insert(uint32_t(long(x) + d));
+    };
+    for (auto& a : op.args)
+      if (a) {
+        around(a->size());
+        if (a->size() > 4096) {  // block sizes a buffered implementation might use
+          V.insert(4096);
+          V.insert(uint32_t(a->size() / 2));
+          V.insert(uint32_t(3 * a->size() + 64));
+        }
+      }
+    if (pre.cur) around(pre.cur->get_href().size());
+    if (R.has_obj) around(R.href_size);
+    std::vector<uint32_t> vals(V.begin(), V.end());
+    if (vals.size() > 12) {  // keep 12: the smallest, the largest and a seeded choice of the rest
+      Rng r(salt + i);
+      while (vals.size() > 12) vals.erase(vals.begin() + 1 + r.below(uint32_t(vals.size() - 2)));
+    }
+    const bool two_calls = op.kind == OP_PARSE && op.args.size() > 1 && op.args[1];
+    std::vector<std::string> constant(vals.size());
+    std::vector<int> nreads(vals.size());
+    for (size_t a = 0; a < vals.size(); a++) constant[a] = run_step_under<U>(op, pre, vals[a], -1, 0, &nreads[a]);
+    for (size_t a = 0; a < vals.size(); a++) {
+      for (size_t b = 0; b < vals.size(); b++) {
+        if (a == b) continue;
+        for (int k = 2; k <= nreads[a]; k++) {
+          std::string got = run_step_under<U>(op, pre, vals[a], k, vals[b], nullptr);
+          st.add("limit_store_positions_enumerated");
+          log += got;
+          log += '\x1e';
+          bool ok = got == constant[a] || got == constant[b];
+          if (!ok && two_calls) ok = got == parse_mixed<U>(op, vals[a], vals[b]);
+          if (got != constant[a]) st.add("limit_store_changed_outcome");
+          if (!ok) {
+            res.violation = true;
+            res.vclass = "limit-torn";
+            res.sig = std::string(kOpKindName[op.kind]) + (op.kind == OP_SET ? std::string(":") + kSetterName[op.sub % S_COUNT] : std::string()) + ":" + tname;
+            res.detail = std::string(tname) + " step " + std::to_string(i) + " " + op.pretty().substr(0, 300) + ": limit " + std::to_string(vals[a]) + " -> " +
+                         std::to_string(vals[b]) + " stored before the call's read #" + std::to_string(k) + " of " + std::to_string(nreads[a]) +
+                         " gives {" + pretty_snap(got).substr(0, 260) + "}, which is neither the result under " + std::to_string(vals[a]) + " {" +
+                         pretty_snap(constant[a]).substr(0, 200) + "} nor under " + std::to_string(vals[b]) + " {" + pretty_snap(constant[b]).substr(0, 200) + "}";
+            return false;
+          }
+        }
+      }
+    }
+    st.add("ops_enumerated");
+    int mx = 0;
+    for (int n : nreads) mx = std::max(mx, n);
+    st.add("ops_with_" + std::to_string(std::min(mx, 5)) + "_limit_reads");
+  }
+  return true;
+}
+
+static Result execute_c13l(const Plan& p, Stats& st) {
+  Result res;
+  auto ops = p.thread_ops(0);
+  g_snapshot_origin = false;
+  hooks().off();
+  g_yield_fn = limit_hook;
+  std::string log;
+  bool ok = enumerate_limit_stores<ada::url>(ops, res, st, "url", log, p.ops_hash()) &&
+            enumerate_limit_stores<ada::url_aggregator>(ops, res, st, "url_aggregator", log, p.ops_hash());
+  (void)ok;
+  g_yield_fn = nullptr;
+  g_switch_at = -1;
+  ada::set_max_input_length(kUnlimited);
+  g_snapshot_origin = true;
+  res.hash = fnv1a(log);
+  res.nontrivial = !log.empty();
+  if (res.nontrivial) st.add("nontrivial_runs");
+  return res;
+}
+
+static Result execute(const Plan& p, Stats& st) {
+  if (p.property == "C13") return execute_c13l(p, st);
+  return p.property == "C08" ? execute_c08(p, st) : execute_c09(p, st);
+}
 
 int main(int argc, char** argv) {
   Engine e{"e2", generate, execute};
